@@ -17,7 +17,7 @@ import (
 )
 
 // mutators applied by the handler of the first request (the "history")
-const zzNumMutators = 40
+const zzNumMutators = 41
 
 func zzMutate(c context.Context, ctx *app.RequestContext, m int, v []byte) {
 	s := string(v)
@@ -106,8 +106,14 @@ func zzMutate(c context.Context, ctx *app.RequestContext, m int, v []byte) {
 		ctx.Response.Header.Set("X-Wa", s)
 		ctx.Response.Header.Set("X-Wb", s)
 		ctx.Response.Header.Del("X-Wa")
+	case 40:
+		// the application hands its own map to the context; it stays the application's
+		zzAppKeys = map[string]interface{}{"secret": "s3cr3t", "k" + s: s}
+		ctx.Keys = zzAppKeys
 	}
 }
+
+var zzAppKeys map[string]interface{}
 
 type zzBadCloser struct{ r *bytes.Reader }
 
@@ -248,8 +254,13 @@ func ZZ_C09_H1() {
 		out = nc.Out
 		return
 	}
+	zzAppKeys = nil
 	freshDump, freshOut := run(false)
 	dump, out := run(true)
+	if zzAppKeys != nil {
+		// recycling the context must not reach into a map the application still owns
+		zz.Assert("application-owned-map-left-alone", len(zzAppKeys) == 2 && zzAppKeys["secret"] == "s3cr3t")
+	}
 	zz.Observe("dump", dump)
 	zz.Cover("reached-assert", true)
 	zz.Assert("probe-handled", len(dump) > 0 && len(freshDump) > 0)
